@@ -17,6 +17,7 @@ CONSTANTS
  ArgLists <- MCArgLists
  InitEvents <- MCInitEvents
  WithId = TRUE
+ TZSet <- MCTZSet
  CfgKeys <- MCCfgKeys
  CfgValues <- MCCfgValues
  IgnoreVariants <- MCIgnoreVariants
